@@ -22,6 +22,25 @@ fn main() {
     };
     std::process::exit(code);
   }
+  if args[0] == "__selfmatch" {
+    // development aid: C02 on every candidate node of one file, no holes: vprop __selfmatch <Lang> <file>
+    install_panic_hook();
+    let lang: ast_grep_language::SupportLang = args[1].parse().expect("lang");
+    let text = std::fs::read_to_string(&args[2]).expect("read");
+    let sg = vprop::tsutil::parse(lang, &text);
+    for n in vprop::pat::cut_candidates(&text, sg.root().get_ts_node(), 400) {
+      let spec = vprop::pat::cut_pattern(&text, &n, &[], None);
+      let case = vprop::c02::Case {
+        lang: vprop::langs::name(lang),
+        source: text.clone(),
+        spec,
+      };
+      let mut st = Stats::new();
+      let r = vprop::c02::check(&case, &mut st);
+      println!("{}..{} {} {:?} {:?} {:?}", n.start_byte(), n.end_byte(), n.kind(), r.as_ref().err().map(|f| &f.signature), st.discarded, st.labels.keys().filter(|k| k.contains("shape")).collect::<Vec<_>>());
+    }
+    std::process::exit(0);
+  }
   if args[0] == "__bytes" {
     // development aid: run one byte input of the coverage-guided stage: vprop __bytes <PROP> <file>
     install_panic_hook();
